@@ -28,6 +28,7 @@ partial def parseVals : List String → List Val → Option (List Val × List St
     | none => none
   | t :: rest, acc =>
     if t == "o" then parseVals rest (Val.other :: acc)
+    else if t == "s" then parseVals rest (Val.str :: acc)
     else if t == "b0" then parseVals rest (Val.bool false :: acc)
     else if t == "b1" then parseVals rest (Val.bool true :: acc)
     else if t.startsWith "i" then
@@ -46,6 +47,7 @@ partial def showVal : Val → String
   | .bool b => if b then "b1" else "b0"
   | .name s => "n" ++ hexOrDash s
   | .arr xs => "[" ++ ",".intercalate (xs.map showVal) ++ "]"
+  | .str => "s"
   | .other => "o"
 
 open PdfVerif.InlineDict in
